@@ -397,13 +397,36 @@ def symbol_branches(ctx, ss) -> dict[str, set]:
             loop = n
     if loop is None:
         raise AnalysisError('scope_symbols: walk loop not found')
+    # the class variable of the dispatch (`a_cls = a.__class__`), the node it belongs to, and the locals derived from the node's fields
+    cls_vars, node_vars = set(), set()
+    for x in ast.walk(loop):
+        tg = val = None
+        if isinstance(x, ast.Assign) and len(x.targets) == 1:
+            tg, val = x.targets[0], x.value
+        elif isinstance(x, ast.NamedExpr):
+            tg, val = x.target, x.value
+        if isinstance(tg, ast.Name) and isinstance(val, ast.Attribute) and val.attr == '__class__' and isinstance(val.value, ast.Name):
+            cls_vars.add(tg.id)
+            node_vars.add(val.value.id)
+    derived = set(node_vars)
+    for x in ast.walk(loop):
+        if isinstance(x, ast.For) and isinstance(x.target, ast.Name) and any(isinstance(y, ast.Name) and y.id in node_vars for y in ast.walk(x.iter)):
+            derived.add(x.target.id)
+        elif isinstance(x, (ast.Assign, ast.NamedExpr)):
+            tg = x.targets[0] if isinstance(x, ast.Assign) else x.target
+            if isinstance(tg, ast.Name) and isinstance(x.value, ast.Attribute) and isinstance(x.value.value, ast.Name) and x.value.value.id in node_vars and \
+                    x.value.attr != '__class__':
+                derived.add(tg.id)
+
+    def on_cls(test):
+        return any(isinstance(y, ast.Compare) and isinstance(y.left, ast.Name) and y.left.id in cls_vars for y in ast.walk(test))
     chain = None
     for st in loop.body:
-        if isinstance(st, ast.If) and 'a_cls' in norm(st.test):
+        if isinstance(st, ast.If) and on_cls(st.test):
             chain = st
             break
     if chain is None:
-        raise AnalysisError('scope_symbols: a_cls dispatch chain not found')
+        raise AnalysisError('scope_symbols: dispatch chain on the node class not found')
     env = dict(ctx.ev.env('fst'))
     out: dict[str, set] = {}
     handled = set()
@@ -412,14 +435,14 @@ def symbol_branches(ctx, ss) -> dict[str, set]:
         r = set()
         for s in stmts:
             for x in ast.walk(s):
-                if isinstance(x, ast.Attribute) and isinstance(x.value, ast.Name) and x.value.id in ('a', 'alias_', 'target'):
+                if isinstance(x, ast.Attribute) and isinstance(x.value, ast.Name) and x.value.id in derived:
                     r.add(x.attr)
         return r
 
     def classes_of(test) -> set:
         cs = set()
         for x in ast.walk(test):
-            if isinstance(x, ast.Compare) and norm(x.left) == 'a_cls' and len(x.ops) == 1:
+            if isinstance(x, ast.Compare) and isinstance(x.left, ast.Name) and x.left.id in cls_vars and len(x.ops) == 1:
                 v = ctx.ev.eval(x.comparators[0], dict(env), 'fst')
                 if isinstance(x.ops[0], ast.Is) and isinstance(v, ClassTok):
                     cs.add(v.name)
@@ -433,7 +456,7 @@ def symbol_branches(ctx, ss) -> dict[str, set]:
         for c in cs:
             out.setdefault(c, set()).update(r)
         handled |= cs
-        if len(cur.orelse) == 1 and isinstance(cur.orelse[0], ast.If) and 'a_cls' in norm(cur.orelse[0].test):
+        if len(cur.orelse) == 1 and isinstance(cur.orelse[0], ast.If) and on_cls(cur.orelse[0].test):
             cur = cur.orelse[0]
             continue
         # final else: nested tests (Nonlocal / Global)
